@@ -9,9 +9,9 @@ mkdir -p $dst
 cp $wt/SEED/demo.py $wt/SEED/meta.json $dst/ 2>/dev/null
 cd $wt
 git diff -- musiclang > $dst/patch.diff
-git stash -q
+git apply -R $dst/patch.diff
 PYTHONPATH=$wt /venv/bin/python SEED/demo.py >/dev/null 2>&1; d0=$?
-git stash pop -q
+git apply $dst/patch.diff
 PYTHONPATH=$wt /venv/bin/python SEED/demo.py >/dev/null 2>&1; d1=$?
 t=$(PYTHONPATH=$wt /venv/bin/python -m pytest -q -p no:cacheprovider --timeout=900 tests 2>&1 | tail -1)
 echo "demo clean=$d0 mutated=$d1 ; tests: $t"
